@@ -7,6 +7,7 @@ CONSTANTS
   MaxLocal = 1
   AllowSelfStop = FALSE
   AllowManual = FALSE
+  AllowVariants = FALSE
   ExactOffers = TRUE
   EmitScripts = TRUE
 CONSTRAINT Bound
